@@ -566,7 +566,7 @@ def gen_ensemble(draw, tier="quick"):
         "nseeds": (1500 if path == "inversion" else 120) if tier == "quick" else (6000 if path == "inversion" else 800),
         # the documented ensemble pattern: positions given once, further realisations drawn with srf(seed=...) on the stored positions -
         # here after the model of the object was re-oriented in place
-        "pattern": draw(st.sampled_from(["pass_pos", "pass_pos", "stored_after_reorient"])) if dim > 1 else "pass_pos",
+        "pattern": draw(st.sampled_from(["pass_pos", "pass_pos", "stored_after_reorient", "after_inplace_rescale"] if dim > 1 else ["pass_pos", "pass_pos", "after_inplace_rescale"])),
     }
 
 
@@ -605,6 +605,14 @@ def check_ensemble(case, rec):
                 srf.structured(axes) if axes is not None else srf(pts)
                 srf.model.anis = spec["anis"]
                 srf.model.angles = spec["angles"]
+            elif case.get("pattern") == "after_inplace_rescale":
+                # the object is built and used with another rescale factor (another convention for the length scale), which is then
+                # assigned in place: only the rescale factor changes
+                r1 = float(spec.get("rescale") or model.rescale)
+                m0 = build_model(dict(spec, rescale=3.0 * r1))
+                srf = gs.SRF(m0, mean=case["mean"], mode_no=N, seed=0)
+                srf.structured(axes) if axes is not None else srf(pts)
+                srf.model.rescale = r1
             else:
                 srf = gs.SRF(model, mean=case["mean"], mode_no=N, seed=0)
             F = np.empty((S, n))
@@ -632,6 +640,8 @@ def check_ensemble(case, rec):
 
     if case.get("pattern") == "stored_after_reorient" and dim > 1:
         rec.label("ensemble_on_stored_positions_after_reorientation")
+    if case.get("pattern") == "after_inplace_rescale":
+        rec.label("ensemble_after_inplace_rescale")
     _confirm(run, case, rec, tags, "srf_ensemble")
     ls = model.len_rescaled
     lag_ok = bool(np.any((dist > 0.05 * ls) & (dist < 5 * ls)))
